@@ -393,16 +393,20 @@ impl<M: Manager, W: From<Object<M>>> Pool<M, W> {
             return Ok(None);
         }
 
-        if apply_timeout(
+        match apply_timeout(
             self.inner.runtime,
             TimeoutType::Recycle,
             timeouts.recycle,
             self.inner.manager.recycle(&mut inner.obj, &inner.metrics),
         )
         .await
-        .is_err()
         {
-            return Ok(None);
+            Ok(()) => {}
+            // A recycle timeout without a runtime is a usage error and not a
+            // broken object: report it instead of discarding one idle object
+            // after the other.
+            Err(PoolError::NoRuntimeSpecified) => return Err(PoolError::NoRuntimeSpecified),
+            Err(_) => return Ok(None),
         }
 
         // Apply post_recycle hooks
